@@ -8,7 +8,7 @@ OUTF=$DIR/seeded/RESULTS.tsv
 PFX=${1:-}
 touch $OUTF
 for d in $DIR/seeded/${PFX}*C[0-9][0-9]-*; do
-  name=$(basename $d); base=${name#R2-}; own=${base%%-*}
+  name=$(basename $d); base=${name#R2-}; base=${base#R3-}; own=${base%%-*}
   grep -v "^$name	" $OUTF > $OUTF.tmp; mv $OUTF.tmp $OUTF
   rel=$(grep "^$name " $DIR/tools/seeded_related.txt | cut -d' ' -f2-)
   for id in $own $rel; do
